@@ -69,6 +69,12 @@ def gate_cases(run: Run, n_each):
         for b_ in G.NOPARAM:
             try: corpus.append(_comp(getattr(dg, a_)(0), getattr(dg, b_)(0)))
             except Exception: pass
+    # half turns (and near-half turns) about axes in the coordinate planes, every sign pattern, several phases: the
+    # single-CNOT shortcut, the alpha = pi branches and the pivot choice of the phase measurement all live here
+    for k_, th_ in itertools.product(range(3), [0.0, 0.5, math.pi / 2, 2.2, math.pi, -2.0, -0.7]):
+        v = [math.cos(th_), math.sin(th_)]; v.insert(k_, 0.0)
+        for al_, ph_ in [(math.pi, 0.0), (math.pi, math.pi / 2), (math.pi, -math.pi / 2), (math.pi, 1.0), (math.pi - 1e-3, 0.3), (-math.pi + 1e-3, -1.2)]:
+            corpus.append(BlochSphereRotation(0, tuple(v), al_, ph_))
     for o in corpus:
         for d in O.DECOMPOSERS:
             cases.append({"d": d, "s": W.w_stmt(ControlledGate(1, o)) if d == "CNOT" else W.w_stmt(o), "band": False})
